@@ -88,7 +88,10 @@ def config(form, layout, cols, variant=0):
     if variant % 2:      # template instances as dict values, one instance shared by all the columns of the same family
         inst = {}
         return {'distribution': {c: inst.setdefault(fam[k], fam[k]()) for c, k in list(zip(cols, layout))[:-1]}}
-    return {'distribution': {c: fam[k] for c, k in list(zip(cols, layout))[:-1]}}       # the last column is left to the default
+    named = list(zip(cols, layout))[:-1]        # the last column is left to the default
+    if variant % 4 >= 2 and len(named) > 1:     # the dict says which family a column gets, in any key order, naming any subset
+        named = named[::-1] if len(named) == 2 else named[:0:-1]
+    return {'distribution': {c: fam[k] for c, k in named}}
 
 
 def _run(job):
